@@ -8,6 +8,7 @@ import Nstd.Future.LiveWorker
 import Nstd.Future.Progress
 import Nstd.Future.LiveProducer
 import Nstd.Future.LiveAll
+import Nstd.Future.LiveReduce
 import Nstd.Future.Handshake
 import Nstd.Future.HandshakeWitness
 /-
@@ -180,6 +181,24 @@ theorem no_stuck_while_a_worker_lives {cfg : Config} {s : State} (hrep : cfg.rep
     (h : Reach cfg s) (hw : ∃ w, liveWorker s w) : ∃ t, enabled s t = true :=
   Nstd.Future.no_stuck_while_a_worker_lives hrep hwf h hw
 
+/-- Terminate jobs reach exactly the serving workers (counting invariant of the pool, equality form): the weighted number of
+    serving workers, contexts whose thread is not yet created, a retire in flight and the destructor's pushed jobs equals
+    `_threadCount` plus the terminate jobs still queued (and, once the destructor has pushed all its jobs, the serving
+    workers are exactly matched by queued terminate jobs). -/
+theorem terminate_jobs_balance {cfg : Config} {s : State} {p : Pool} (hrep : cfg.repaired = true) (h : Reach cfg s)
+    (hp : s.pool = some p) :
+    (¬ LS.lsDone s → tsum s.nthreads (LS.lsAt p.ring.pushLog s) = LS.lsTq p.ring.head p.ring.pushLog + p.threadCount) ∧
+    (LS.lsDone s → tsum s.nthreads (LS.lsAt p.ring.pushLog s) = LS.lsTq p.ring.head p.ring.pushLog) :=
+  Nstd.Future.terminate_jobs_balance hrep h hp
+
+/-- UNCONDITIONAL deadlock freedom of the repaired system relative to the one remaining statement `QueuedJobServed`
+    ("a queued job with no live worker ⇒ somebody can step", i.e. the spawn arithmetic of `ThreadPool::run`): every state
+    without an enabled thread and with a live thread reduces to it.  (`_partial`: the hypothesis `hS` is OPEN.) -/
+theorem no_stuck_partial {cfg : Config} {s : State} (hrep : cfg.repaired = true) (hwf : cfg.WellFormed)
+    (hS : QueuedJobServed cfg) (h : Reach cfg s) (hl : ∃ t th, s.threads t = some th ∧ th.finished = false) :
+    ∃ t, enabled s t = true :=
+  no_stuck_of_queuedJobServed hrep hwf hS h hl
+
 /-- Mutual exclusion and progress of the simulated Signal layer inside the full model (both code variants): the two
     pool signals' mutexes are exclusive; a thread blocked on any Signal mutex has an owner that can step; a thread
     blocked on the pool mutex implies some other thread can step; no sleeper of a pool signal misses a set flag (a setter
@@ -284,11 +303,10 @@ OPEN: join_eventually   (liveness under weak fairness, full model of the repaire
     `no_stuck_while_a_worker_lives` — `no_stuck` in every state in which some worker thread is alive — composed of
     `no_stuck_worker_side`, `no_stuck_producer_side`, `no_stuck_join_side`, `no_stuck_shutdown_side`,
     `signal_layer_progress`, `deadlock_shape`; `started_call_is_never_lost` (token conservation).
-  MISSING for `no_stuck`: the states without a live worker.  There every blocked thread reduces (by the proved sides) to
-    "a job is queued, no worker is alive, no thread is enabled"; excluding it needs (i) the spawn arithmetic of
-    `ThreadPool::run` over `_pushedJobs`, `_processedJobs`, `_threadCount` with their stale reads together with the FIFO
-    order of the ring (a queued call is ahead of the terminate jobs of later retire decisions), and (ii) the equality form
-    of the terminate-job balance (LiveShutdown proves the direction `≤` that deadlock freedom at `dJoin` needs).
+  MISSING for `no_stuck`: exactly `QueuedJobServed cfg` (see `no_stuck_partial`): "a job is queued, no worker is alive ⇒
+    some thread is enabled".  It needs the spawn arithmetic of `ThreadPool::run` over `_pushedJobs`, `_processedJobs`,
+    `_threadCount` with their stale reads together with the FIFO order of the ring (a queued call is ahead of the
+    terminate jobs of later retire decisions); the terminate-job balance it also needs is proved (`terminate_jobs_balance`).
   MISSING for `join_eventually` beyond `no_stuck`: a ranking argument under weak fairness (the CAS retry loops and the
     spin lock of the lazily created pool are lock-free, not wait-free) and that the body and the clients' scripts are
     finite (they are, in the model).
